@@ -1,10 +1,14 @@
 /-
-  Model driver for C20: for each `hatch` / `dots` case prints the callback trace the model of
-  `hatching.rs` produces at `Float32`, in the token format of `harness/src/bin/c20.rs`.
+  Model driver for C20: for each `hatch` / `dots` / `curves` case prints the callback trace the model
+  of `hatching.rs` produces at `Float32`, in the token format of `harness/src/bin/c20.rs`.  Every
+  case runs on the OBJECT model of the Hatcher (`Model/Algo/HatchObj.lean`): the calls of the case's
+  history first (`HIST k <call>*` behind the case's own call), then the case's call, all on one
+  object, printing the trace of each.
 -/
 import LyonVerif.Drive.Common
 import LyonVerif.Model.Algo.Hatch
 import LyonVerif.Model.Algo.HatchCurves
+import LyonVerif.Model.Algo.HatchObj
 
 namespace Lyon.Drive.C20
 open Lyon Lyon.Drive Lyon.Hatch
@@ -24,11 +28,11 @@ def rdOffsets (v : Array String) (i : Nat) : (Nat → F) × Nat :=
     let tail : F := rd v (i + 2 + n)
     (fun row => if h : row < tab.size then tab[row] else tail, i + 3 + n)
 
-/-- `P n (B x y | L x y | Q cx cy x y | C c1x c1y c2x c2y x y | E)*` -/
-def rdEvents (v : Array String) (i : Nat) : List (CEv F) :=
+/-- `P n (B x y | L x y | Q cx cy x y | C c1x c1y c2x c2y x y | E)*` → (events, next index) -/
+def rdEvents (v : Array String) (i : Nat) : List (CEv F) × Nat :=
   let n := rdNat v (i+1)
-  let rec go : Nat → Nat → List (CEv F) → List (CEv F)
-    | 0, _, acc => acc.reverse
+  let rec go : Nat → Nat → List (CEv F) → List (CEv F) × Nat
+    | 0, j, acc => (acc.reverse, j)
     | k+1, j, acc =>
       match v.getD j "" with
       | "B" => go k (j+3) (.begin (rdP v (j+1)) :: acc)
@@ -47,20 +51,6 @@ def hatchTrace (items : List (HItem F)) : List String :=
   items.reverse.flatMap fun
     | .off r => ["o", toString r]
     | .seg s => fSegTokens s
-
-/-- `h angle uv ct <offsets> P …` (polygonal) / `H angle uv ct tol <offsets> P …` (curved) -/
-def hatchH (v : Array String) : String :=
-  let curved := v.getD 0 "" == "H"
-  let angle : F := rd v 1
-  let uv : P F := rdP v 2
-  let ct := v.getD 4 "0" == "1"
-  let tol : F := if curved then rd v 5 else Float32.ofScientific 1 true 1
-  let (offs, j) := rdOffsets v (if curved then 6 else 5)
-  let evs := rdEvents v j
-  match hatchPathCurved ⟨angle, uv, ct⟩ tol ⟨nanF, nanF⟩ (logHatch offs) fuel evs [] with
-  | none => "panic"
-  | some st =>
-    unwords (hatchTrace st.b ++ [if st.fuelOut then "fuel" else "end"])
 
 def dotTrace (items : List (DItem F)) : List String :=
   items.reverse.flatMap fun
@@ -82,27 +72,51 @@ def rdDotPat (v : Array String) (i : Nat) : DotPat F × Nat :=
        rowOff := fun _ row => rows row,
        colOff := fun col row => cols.getD ((col + row) % n) 0.0 }, k + 2 + n)
 
-/-- `d angle uv <pattern> P …` / `D angle uv tol <pattern> P …` -/
-def dotsH (v : Array String) : String :=
-  let curved := v.getD 0 "" == "D"
-  let angle : F := rd v 1
-  let uv : P F := rdP v 2
-  let tol : F := if curved then rd v 4 else Float32.ofScientific 1 true 1
-  let (pat, j) := rdDotPat v (if curved then 5 else 4)
-  let evs := rdEvents v j
-  match dotPathCurved angle tol uv ⟨nanF, nanF⟩ pat fuel evs with
-  | none => "panic"
-  | some st =>
-    unwords (dotTrace st.b.log ++ [if st.fuelOut || st.b.fuelOut then "fuel" else "end"])
+/-- one call record, starting at token `i`:
+`h angle uv ct <offsets> P …` (polygonal) / `H angle uv ct tol <offsets> P …` (curved) /
+`d angle uv <pattern> P …` / `D angle uv tol <pattern> P …` → (call, next index) -/
+def rdCall (v : Array String) (i : Nat) : Call F × Nat :=
+  let k := v.getD i ""
+  let angle : F := rd v (i+1)
+  let uv : P F := rdP v (i+2)
+  let tenth : F := Float32.ofScientific 1 true 1
+  if k == "d" || k == "D" then
+    let tol : F := if k == "D" then rd v (i+4) else tenth
+    let (pat, j) := rdDotPat v (if k == "D" then i+5 else i+4)
+    let (evs, e) := rdEvents v j
+    (.dots angle uv tol pat evs, e)
+  else
+    let ct := v.getD (i+4) "0" == "1"
+    let tol : F := if k == "H" then rd v (i+5) else tenth
+    let (offs, j) := rdOffsets v (if k == "H" then i+6 else i+5)
+    let (evs, e) := rdEvents v j
+    (.hatch ⟨angle, uv, ct⟩ tol offs evs, e)
 
-/-- the `curves` family holds both kinds of case; the first argument token tells which -/
-def curvesH (v : Array String) : String :=
-  if v.getD 0 "" == "D" then dotsH v else hatchH v
+/-- `HIST k <call>*` behind the case's own call: the calls the Hatcher has served before -/
+def rdHistory (v : Array String) (i : Nat) : List (Call F) :=
+  if v.getD i "" != "HIST" then [] else
+  let rec go : Nat → Nat → List (Call F) → List (Call F)
+    | 0, _, acc => acc.reverse
+    | k+1, j, acc => go k (rdCall v j).2 ((rdCall v j).1 :: acc)
+  go (rdNat v (i+1)) (i+2) []
+
+def traceTokens : Trace F → List String
+  | .hatch items fo => hatchTrace items ++ [if fo then "fuel" else "end"]
+  | .dots items fo => dotTrace items ++ [if fo then "fuel" else "end"]
+  | .panic => ["panic"]
+
+/-- every family: the case's call, run on ONE model `Hatcher` after the calls of its history
+(`HIST …`, absent for a new Hatcher); prints the trace of every call in the order they ran -/
+def callH (v : Array String) : String :=
+  let (c, j) := rdCall v 0
+  let hist := rdHistory v j
+  let traces := runHistory ⟨nanF, nanF⟩ fuel (Obj.fresh ⟨nanF, nanF⟩) (hist ++ [c])
+  unwords ((if hist.isEmpty then [] else ["hist", toString hist.length]) ++ traces.flatMap traceTokens)
 
 def families : List Family := [
-  Family.plain "hatch" hatchH,
-  Family.plain "dots" dotsH,
-  Family.plain "curves" curvesH ]
+  Family.plain "hatch" callH,
+  Family.plain "dots" callH,
+  Family.plain "curves" callH ]
 
 end Lyon.Drive.C20
 
